@@ -483,6 +483,10 @@ def antichain_network(prog: Program, rep, RID: str):
     key = "stDAG.compute_max_edge_antichain:demand"
     problems = []
     for g, x in expr_cases(kws["l"]):
+        # value-preserving conversions (exact fractions for the network simplex; int() of an Integral) are peeled off
+        while isinstance(x, ast.Call) and len(x.args) == 1 and not x.keywords and \
+                (dotted(x.func) in ("Fraction", "fractions.Fraction", "float") or (dotted(x.func) == "int" and "Integral" in B.key(g) and "weight_function" in norm(x.args[0]))):
+            x = x.args[0]
         txt = norm(x)
         if B.atoms_of(g) & truthy_atoms:
             problems.append("the demand is chosen by the truth value of weight_function: an empty weight function (every edge ignored - all weights 0, "
@@ -581,6 +585,23 @@ def antichain_numerics(prog: Program, rep, RID: str):
         rep.violation(RID, key, f"every arc of the antichain network is capped by the constant `{ctxt}`: weights above it make the auxiliary flow infeasible", f.loc())
     else:
         raise AnalysisError(f"compute_max_edge_antichain: capacity `{ctxt}` not understood")
+    # (d) the network simplex is an exact algorithm: float demands leave rounding residues and the network is reported infeasible
+    key = "stDAG.compute_max_edge_antichain:exact-demands"
+    reads = [c for c in calls_in(f.node) if isinstance(c.func, ast.Attribute) and c.func.attr == "get" and norm(c.func.value) == "weight_function"]
+    if not reads:
+        raise AnalysisError("compute_max_edge_antichain: the read of the weight function was not found")
+    exact = [c for c in calls_in(f.node) if dotted(c.func) in ("Fraction", "fractions.Fraction", "Decimal", "decimal.Decimal") and c.args and
+             any(isinstance(n, ast.Name) and n.id == "edge_demand" or n in reads for n in ast.walk(c.args[0]))]
+    ints = [c for c in calls_in(f.node) if dotted(c.func) in ("int", "round") and c.args and any(isinstance(n, ast.Name) and n.id == "edge_demand" or n in reads for n in ast.walk(c.args[0]))]
+    unguarded_int = [c for c in ints if not any(isinstance(i, ast.If) and any(c is x for x in ast.walk(i)) and ("Integral" in norm(i.test) or "is_integer" in norm(i.test))
+                                               for i in ast.walk(f.node))]
+    if unguarded_int:
+        rep.violation(RID, key, f"`{norm(unguarded_int[0])}` truncates non-integral weights before the antichain is computed", f.loc(unguarded_int[0]))
+    elif exact:
+        rep.ok(RID, key, f"non-integral weights are handed to the network simplex as exact numbers (`{norm(exact[0])}`)", f.loc(exact[0]))
+    else:
+        rep.violation(RID, key, "the weights are handed to networkx.network_simplex as they come: the algorithm is exact only on exact numbers, with float demands (0.2 and 2.5 on two "
+                      "edges into one node) it reports an infeasible network, the blanket except returns (None, None) and the query returns None or raises TypeError", f.loc(reads[0]))
     # (c) ignored edges are a set in stDiGraph.get_width
     h = prog.own_method("stDiGraph", "get_width")
     loops = [lp for lp in ast.walk(h.node) if isinstance(lp, ast.For) and "edges_to_ignore" in norm(lp.iter) and
@@ -617,6 +638,6 @@ def check(prog: Program, rep):
     from rules.c09 import width_cache
     rep.rule("C17.R3b", "width cache key", floor=4)
     width_cache(prog, rep, "C17.R3b")
-    rep.rule("C17.R7", "antichain / min-cost-flow numerics: positive-weight test, supply above the sum of demands, uncapacitated arcs, ignored edges counted once", floor=4)
+    rep.rule("C17.R7", "antichain / min-cost-flow numerics: positive-weight test, supply above the sum of demands, uncapacitated arcs, exact demands, ignored edges counted once", floor=5)
     antichain_numerics(prog, rep, "C17.R7")
 
